@@ -11,7 +11,7 @@
 (***************************************************************************)
 EXTENDS Pyxis, Props, Json
 
-CONSTANTS NB0, Variants, WithB1, B1Vft, Clash, DDs, DDVft, Ptrs, Split, Lead, EmptyBlocks, B1Names, SameName, SameName
+CONSTANTS NB0, Variants, WithB1, B1Vft, Clash, DDs, DDVft, Ptrs, Split, Lead, EmptyBlocks, B1Names, SameName, XdNames, SameName
 
 Leaf(n) == Field(n, "pub", <<>>, TCPtr(TNm("u8")), None, FALSE)
 (* base fields carry a doc comment: it is an attribute next to `base`, in either order *)
@@ -55,11 +55,11 @@ MD == Func("md", "pub", <<>>, <<ArgM, Arg("v", TNm("i64"))>>, TNone, 393216, Non
 (* a function without receiver: derived types forward it through the type of the base field, not through `self` *)
 S0 == Func("s0", "pub", <<>>, <<Arg("v", TNm("u32"))>>, TNm("u32"), 524288, None, "")
 
-MkInput(ptr, nb0, v, k, b1, b1v, clash, dd, ddv, split, lead, eb, dvis, b1n) ==
+MkInput(ptr, nb0, v, k, b1, b1v, clash, dd, ddv, split, lead, eb, dvis, b1n, xdn) ==
   LET B0 == [TypeDef("B0", "pub", <<Leaf("x0")>>) EXCEPT !.vft = IF nb0 > 0 \/ eb THEN Vft(None, BaseFuncs(nb0)) ELSE NoVft]
       B1 == [TypeDef("B1", "pub", <<Leaf("x1")>>) EXCEPT !.vft = IF b1v THEN Vft(None, <<H1>>) ELSE NoVft]
       (* dvis: the intermediate type need not be public for its own bases' functions to reach DD *)
-      D == [TypeDef("D", dvis, (IF lead THEN <<Leaf("tag")>> ELSE <<>>) \o <<BaseF("b0", "B0")>> \o (IF b1 THEN <<BaseF(b1n, "B1")>> ELSE <<>>) \o <<Leaf("xd")>>)
+      D == [TypeDef("D", dvis, (IF lead THEN <<Leaf("tag")>> ELSE <<>>) \o <<BaseF("b0", "B0")>> \o (IF b1 THEN <<BaseF(b1n, "B1")>> ELSE <<>>) \o <<Leaf(xdn)>>)
               EXCEPT !.vft = DBlock(nb0, v, k)]
       DD == [TypeDef("DD", "pub", <<BaseF("d", "D")>> \o (IF dd = "diamond" THEN <<BaseF("e", "B0")>> ELSE <<>>) \o <<Leaf("y")>>)
                (* with its own block: D's, or (when D only inherits its table) the base functions again plus one *)
@@ -95,7 +95,10 @@ MCInit ==
   /\ \/ (SameName /\ \E ptr \in Ptrs : input = MkSameName(ptr))
      \/ \E ptr \in Ptrs, nb0 \in NB0, v \in Variants, k \in 1..2, b1 \in WithB1, b1v \in B1Vft,
         clash \in Clash, dd \in DDs, ddv \in DDVft, split \in Split, lead \in Lead, eb \in EmptyBlocks, dvis \in {"pub", "priv"},
-        b1n \in B1Names :
+        b1n \in B1Names, xdn \in XdNames :
+        (* D's own field may be called `vftable`: legal as long as D does not own a pointer field of that name; the accessor *)
+        (* still goes through the base                                                                                      *)
+        /\ (xdn # "xd" => (~b1 /\ ~lead /\ ~split /\ dvis = "pub" /\ clash = "no" /\ v \in {"none", "same", "ext"} /\ ddv = "no"))
         (* the name of the second base field matters only when there is one; a name that starts with `_` next to the simplest shapes *)
         /\ (~b1 => b1n = "b1")
         /\ (b1n # "b1" => (v \in {"none", "same"} /\ ~lead /\ ~split /\ dvis = "pub" /\ ddv = "no"))
@@ -110,7 +113,7 @@ MCInit ==
         /\ (ddv = "flat" => (v = "none" /\ nb0 = 3))
         /\ (eb => nb0 = 0)
         /\ (lead => (dd = "none" /\ clash = "no" /\ ~b1v))
-        /\ input = MkInput(ptr, nb0, v, k, b1, b1v, clash, dd, ddv, split, lead, eb, dvis, b1n)
+        /\ input = MkInput(ptr, nb0, v, k, b1, b1v, clash, dd, ddv, split, lead, eb, dvis, b1n, xdn)
   /\ InitRest
 
 MCSpec == MCInit /\ [][Next]_vars /\ WF_vars(Next)
@@ -133,7 +136,9 @@ P_C06(crate, inp, x) ==
   IN /\ VftCompatible(inp, m, d)
      /\ it.k = "struct"
      /\ baseHas =>
-          /\ \A i \in DOMAIN it.fields : it.fields[i].name # "vftable"
+          (* no pointer field of its own: the only fields called `vftable` are the ones the description itself declares *)
+          /\ Cardinality({i \in DOMAIN it.fields : it.fields[i].name = "vftable"})
+               = Cardinality({i \in DOMAIN d.fields : d.fields[i].name = "vftable"})
           /\ it.vftacc.has /\ it.vftacc.via = d.fields[bi].name
           /\ it.vftacc.ty = RCPtr(RRaw(Append(m.path, (IF d.vft.has THEN d.name ELSE "?") \o "Vftable"))) \/ ~d.vft.has
      /\ (~baseHas /\ d.vft.has) =>
